@@ -13,6 +13,7 @@ import IbcVerif.Driver.Router
 import IbcVerif.Driver.Authz
 import IbcVerif.Driver.Merkle
 import IbcVerif.Driver.World
+import IbcVerif.Driver.Relay
 open Lean
 namespace IbcVerif.Driver.Pure
 open IbcVerif.J
@@ -28,6 +29,7 @@ def handlers : List (String → Json → Option (Except String Json)) :=
   , IbcVerif.Driver.Authz.handle
   , IbcVerif.Driver.Merkle.handle
   , IbcVerif.Driver.World.handle
+  , IbcVerif.Driver.Relay.handle
   ]
 
 def handle (f : String) (j : Json) : Except String Json :=
